@@ -434,6 +434,36 @@ def _safe_dump(m):
         return 'undumpable:%s' % type(e).__name__
 
 
+def top_level_semicolons(text):
+    """number of `;` outside string literals, guids and comments (a four-state scanner that does not share any code with
+    the loader; exact on texts the loader accepts)"""
+    n = 0
+    i = 0
+    state = ''
+    while i < len(text):
+        ch = text[i]
+        if state == "'":
+            if ch == "'":
+                state = ''
+        elif state == '"':
+            if ch == '\\':
+                i += 1
+            elif ch == '"':
+                state = ''
+        elif state == '-':
+            if ch == '\n':
+                state = ''
+        elif ch == "'" or ch == '"':
+            state = ch
+        elif ch == '-' and text[i + 1:i + 2] == '-':
+            state = '-'
+            i += 1
+        elif ch == ';':
+            n += 1
+        i += 1
+    return n
+
+
 def _run_timing(case):
     fam, n = case['timing'], case['n']
     fails = []
@@ -482,6 +512,11 @@ def run_impl(case):
             loader.input(text)
             outs.append(Sym('accepted'))
             accepted.append(text)
+            # an accepted text is applied completely: one statement per top-level semicolon
+            added = len(loader.statements) - len(before)
+            if added != top_level_semicolons(text) or loader.statements is not ident or _deep(loader.statements[:len(before)]) != before:
+                fail('accepted-text-not-applied', 'text %d %r was accepted and has %d statements, but loader.statements grew '
+                     'by %d' % (k, text[:300], top_level_semicolons(text), added))
         except x.ParsingException:
             outs.append(Sym('parsing'))
             after = _deep(loader.statements)
